@@ -112,7 +112,7 @@ structure Regs (S Z : Type) where
 def stepRun (G : Gen S Z) (shape : List Nat) : Step → Regs S Z × World S → Regs S Z × World S
   | .fallbackConst, (r, w) => ({ r with key := some (r.key.getD (G.hash 0)) }, w)
   | .saveState, (r, w) => ({ r with saved := some w.globalState }, w)
-  | .seedKey, (r, w) => (r, ⟨G.seed (r.key.getD 0)⟩)
+  | .seedKey, (r, _) => (r, ⟨G.seed (r.key.getD 0)⟩)
   | .draw, (r, w) => ({ r with out := some (G.draw w.globalState shape).1 }, ⟨(G.draw w.globalState shape).2⟩)
   | .restoreState, (r, w) => (r, ⟨r.saved.getD w.globalState⟩)
   | .return, (r, w) => ({ r with returned := r.out }, w)
@@ -158,9 +158,9 @@ def Prim.kind : Prim → PrimKind
   | .localGenerator .. => .localGenerator
 
 def Prim.run (G : Gen S Z) : Prim → World S → Z × World S
-  | .keyedNormal key shape, w => keyedNormal G key shape w
-  | .unkeyedNormalFallbackKey0 shape, w => unkeyedNormal G shape w
-  | .globalDraw shape, w => globalDraw G shape w
+  | .keyedNormal key shape, w => Rng.keyedNormal G key shape w
+  | .unkeyedNormalFallbackKey0 shape, w => Rng.unkeyedNormal G shape w
+  | .globalDraw shape, w => Rng.globalDraw G shape w
   | .localGenerator seed shape, w => (G.localDraw seed shape, w)
 
 /-- a routine: draws interleaved with pure computation (the continuations) -/
